@@ -149,13 +149,13 @@ pub enum TargetShape { FlatCalamus, Named, Same, AlreadyNested, Dollar }
 
 /// A two-namespace mapping set over (a subset of) the universe; every class has a target name; target names are
 /// pairwise distinct. `want_methods` are added to their owners (with a target name most of the time).
-pub fn gen_mappings(rng: &mut Rng, universe: &BTreeSet<String>, must_have: &[String], want_methods: &[(String, (String, String))]) -> (mm::Maps, BTreeMap<String, TargetShape>) {
+pub fn gen_mappings(rng: &mut Rng, universe: &BTreeSet<String>, must_have: &[String], want_methods: &[(String, (String, String))], small: bool) -> (mm::Maps, BTreeMap<String, TargetShape>) {
     let mut m = mm::Maps::new(&["official", "named"]);
     let mut shapes = BTreeMap::new();
     let mut used: BTreeSet<String> = universe.clone();
     let mut ctr = 100usize;
     let all: Vec<String> = universe.iter().cloned().collect();
-    let gcfg = maps::GenCfg { comments: maps::CommentClass::Plain, big_indices: false, max_fields: 2, max_methods: 2, max_params: 2, ..maps::GenCfg::default() }.with_n(2);
+    let gcfg = maps::GenCfg { comments: maps::CommentClass::Plain, big_indices: false, max_fields: if small { 1 } else { 2 }, max_methods: if small { 1 } else { 2 }, max_params: if small { 1 } else { 2 }, ..maps::GenCfg::default() }.with_n(2);
     for c in universe {
         if !must_have.contains(c) && rng.chance(1, 3) { continue; }
         let (t, shape) = loop {
